@@ -259,7 +259,7 @@ fn run_scenario(v: &Value, base: &Path) -> Value {
     let root = base.join(format!("t{}", seed % 1000003));
     let _ = std::fs::remove_dir_all(&root);
     std::fs::create_dir_all(&root).unwrap();
-    build_tree(&root, &entries.iter().filter(|e| e.as_str() != "<stdin>").cloned().collect::<Vec<_>>(), &errs);
+    build_tree(&root, &entries.iter().filter(|e| e.as_str() != "<stdin>" && !e.starts_with("gone")).cloned().collect::<Vec<_>>(), &errs);
     // directories that cannot be opened (mode 000; the recorder must not run as root for these): the entry itself is
     // handed out, reading it fails
     let locked: BTreeSet<String> =
@@ -320,6 +320,7 @@ fn run_scenario(v: &Value, base: &Path) -> Value {
 
     // the root "<stdin>" is the standard-input entry (given to the builder as "-", never looked up in the file system; its
     // path reads "<stdin>"), any other one a path of the tree
+    // (a root whose name starts with "gone" is never created: the distributing thread reports it as an error and goes on)
     let root_path = |r: &String| if r == "<stdin>" { PathBuf::from("-") } else { root.join(r) };
     let mut wb = WalkBuilder::new(root_path(&roots[0]));
     for r in &roots[1..] {
@@ -355,7 +356,7 @@ fn run_scenario(v: &Value, base: &Path) -> Value {
                         Err(e) => (err_path(&e).map(|p| rel(&root, &p)).unwrap_or_else(|| "<error>".to_string()), true),
                     };
                     let w = WORKER.with(|w| w.get());
-                    if err && (p == ".ignore" || p.starts_with("..") || p == "<error>") {
+                    if err && (p == ".ignore" || p.starts_with("..") || p == "<error>" || p.starts_with("gone")) {
                         // an error that is not about an entry of the tree (a bad ignore file above the roots): noted only
                         let mut g = s.m.lock().unwrap();
                         g.trace.push(json!({"ev":"Note","w":w.wrapping_add(1),"path":p}));
